@@ -104,12 +104,11 @@ def opac_tables(ocfg, molecules, pairs):
 def reset_caches():
     from taurex.cache import OpacityCache, CIACache, GlobalCache
     from taurex.cache.ktablecache import KTableCache
-    OpacityCache().clear_cache()
-    OpacityCache()._force_active = []
-    CIACache().cia_dict = {}
-    CIACache()._cia_path = None
-    KTableCache().clear_cache()
-    GlobalCache().variable_dict = {}
+    # re-run init() on the process-wide singletons: every field they (or a
+    # changed tree) create there starts fresh for each simulated run, as it
+    # would in a new process
+    for cache in (GlobalCache(), OpacityCache(), CIACache(), KTableCache()):
+        cache.init()
 
 
 def install_opacities(cfg):
